@@ -63,7 +63,7 @@ CellWYY(idx) == SumResp(LAMBDA k : IF InY(k, idx) THEN k.w * YOf(k.p, idx) * YOf
 
 \* numeric measures of a tensor cell as rationals; NaN = the server's {"?": -8}
 CellMean(idx) == Div(R(CellWY(idx)), R(CellWV(idx)))
-CellSum(idx)  == IF CellNV(idx) = 0 /\ SumNaN THEN NaN ELSE R(CellWY(idx))
+CellSum(idx)  == IF CellNV(idx) = 0 /\ SumNaN THEN NaN ELSE RW(CellWY(idx))
 \* the library passes stddev and median through untouched; any cell-determined
 \* number will do.  "stddev": the population variance of y in the cell;
 \* "median": twice the mean plus one.
@@ -83,8 +83,8 @@ FlatI(f(_), idxs) == [t \in 1..Len(idxs) |-> f(idxs[t])]
 \* the measures as the response carries them
 Flat ==
   [ counts |-> FlatI(LAMBDA i : CellN(CountAxes, i), IdxCount),
-    count  |-> FlatI(LAMBDA i : CellW(CountAxes, i), IdxCount),
-    w2     |-> FlatI(LAMBDA i : CellW2(CountAxes, i), IdxCount) ]
+    count  |-> FlatI(LAMBDA i : RSt(CellW(CountAxes, i), "w"), IdxCount),
+    w2     |-> FlatI(LAMBDA i : RSt(CellW2(CountAxes, i), "w2"), IdxCount) ]
 
 \* overlap tensors of a response whose LAST dimension is MR: one extra axis b over the
 \* items of that dimension.  overlap[.., b] = weight of the respondents of the cell who
@@ -96,11 +96,11 @@ OvCell(idx, b, valid) ==
                      THEN (IF Weighted THEN k.w ELSE 1) ELSE 0)
 FlatOv(valid) ==
   FlattenSeq([t \in 1..Len(IdxCount) |->
-                [b \in 1..Dims[OvDim].n |-> OvCell(IdxCount[t], b, valid)]])
+                [b \in 1..Dims[OvDim].n |-> RSt(OvCell(IdxCount[t], b, valid), WS)]])
 
 FlatY ==
   [ vcu    |-> FlatI(CellNV, IdxAll),
-    vcw    |-> FlatI(CellWV, IdxAll),
+    vcw    |-> FlatI(LAMBDA i : RSt(CellWV(i), "w"), IdxAll),
     mean   |-> FlatI(CellMean, IdxAll),
     sum    |-> FlatI(CellSum, IdxAll),
     stddev |-> FlatI(CellStd, IdxAll),
